@@ -257,22 +257,44 @@ func runC07(c *core.Ctx) {
 		c.Check(okL, "R2", "loader/put-back", p.Pos(loader.Pos()), detail, detail)
 	}
 	// ---------------- R4 consumer entries
-	sendsWake := func(g *ssa.Function) bool {
-		for f := range core.Reachable(p, g) {
-			found := false
-			core.Instrs(f, func(ins ssa.Instruction) {
-				if cc, ok := ins.(*ssa.Call); ok && len(cc.Call.Args) > 0 && core.FieldKey(cc.Call.Args[0]) == "BufferedChannelQueue.loadWorkerCh" {
-					if gg := core.Callee(&cc.Call); gg != nil && chanSends(gg) {
-						found = true
-					}
-				}
-			})
-			if found {
+	isWakeSend := func(ins ssa.Instruction) bool {
+		if cc, ok := ins.(*ssa.Call); ok && len(cc.Call.Args) > 0 && core.FieldKey(cc.Call.Args[0]) == "BufferedChannelQueue.loadWorkerCh" {
+			if gg := core.Callee(&cc.Call); gg != nil && chanSends(gg) {
 				return true
 			}
 		}
 		return false
 	}
+	// mustWake: on every path through g that does not leave on the closed-flag edge, a loader wake-up is posted
+	var mustWake func(g *ssa.Function, depth int) bool
+	mustWake = func(g *ssa.Function, depth int) bool {
+		if depth > 3 || len(g.Blocks) == 0 || len(g.Params) == 0 {
+			return false
+		}
+		base := g.Params[0].Name()
+		closedEdge := func(b *ssa.BasicBlock) bool {
+			for _, cnd := range core.EdgeFacts(b) {
+				n := core.Normalize(cnd)
+				if n.True && flagRead(p, n.V, base, "isClosed", 0) {
+					return true
+				}
+			}
+			return false
+		}
+		min, _ := core.PathCount(g, func(ins ssa.Instruction) int {
+			if isWakeSend(ins) {
+				return 1
+			}
+			if call, ok := ins.(*ssa.Call); ok {
+				if h := core.Callee(&call.Call); h != nil && p.InRepo(h) && h != g && len(call.Call.Args) > 0 && core.Path(call.Call.Args[0]) == base && mustWake(h, depth+1) {
+					return 1
+				}
+			}
+			return 0
+		}, closedEdge)
+		return min >= 1
+	}
+	sendsWake := func(g *ssa.Function) bool { return mustWake(g, 0) }
 	for _, name := range []string{"Take", "TakeWithTimeout", "Poll", "GetChannel"} {
 		f := p.Method(p.Fpgo, "BufferedChannelQueue", name)
 		key := "BufferedChannelQueue." + name
@@ -308,7 +330,7 @@ func runC07(c *core.Ctx) {
 				}
 			}
 		})
-		c.Check(ok, "R4", key, p.InstrPos(use), "a call that posts on loadWorkerCh dominates the channel operation", "no loader wake-up before the channel operation: items parked in the overflow list are not moved to the channel for this consumer (stranded until the next Offer)")
+		c.Check(ok, "R4", key, p.InstrPos(use), "a call that posts on loadWorkerCh on every not-closed path dominates the channel operation", "no unconditional loader wake-up before the channel operation (missing, or skipped on some path by an extra condition): items parked in the overflow list are not moved to the channel for this consumer (stranded until the next Offer)")
 	}
 	// ---------------- R5 non-blocking
 	type entry struct{ typ, name string }
